@@ -719,3 +719,70 @@ mvt@K@(n: MachineInteger): (MachineInteger, MachineInteger) == { import from Mac
 
 
 FAMILIES.update({'F7M': f7m})
+
+
+def f6m(tier):
+    """multiple values, tuples and unions"""
+    C = []
+    # functions returning two / three values; destructuring; swap by multiple assignment; values passed on
+    C.append(raw('''mv2@K@(a: MachineInteger, b: MachineInteger): (MachineInteger, MachineInteger) == { import from MachineInteger; (a + b, a * b) }
+mv3@K@(a: MachineInteger): (MachineInteger, MachineInteger, MachineInteger) == { import from MachineInteger; (a, a + 1, a * 2) }
+c@K@(): () == {
+	import from MachineInteger;
+	(s, p) := mv2@K@(3, 4);
+	pIMI("K@K@:", s); pIMI("K@K@:", p);
+	(x, y, z) := mv3@K@(10);
+	pIMI("K@K@:", x + y + z);
+	(s, p) := (p, s);
+	pIMI("K@K@:", s); pIMI("K@K@:", p);
+	(q, r) := divide(47, 5);
+	pIMI("K@K@:", q); pIMI("K@K@:", r);
+	for i in 1..3 repeat { (s, p) := mv2@K@(s, i); }
+	pIMI("K@K@:", s); pIMI("K@K@:", p);
+}
+''', ['7', '12', '41', '12', '7', '9', '2', '18', '45']))
+    C.append(raw('''c@K@(): () == {
+	import from MachineInteger;
+	a: MachineInteger := 1; b: MachineInteger := 2; c: MachineInteger := 3;
+	(a, b, c) := (c, a, b);
+	pIMI("K@K@:", a * 100 + b * 10 + c);
+	(a, b) := (b, a + b);
+	pIMI("K@K@:", a * 100 + b * 10 + c);
+}
+''', ['312', '142']))
+    # unions: construction, case test, selection, reassignment to the other branch, in a list
+    for first in ('i', 's'):
+        init = '[7]' if first == 'i' else '["seven"]'
+        other = '["str"]' if first == 'i' else '[9]'
+        exp = []
+        show = lambda br, v: [('int' + str(v)) if br == 'i' else ('str' + v)]
+        text = '''sh@K@(u: Union(i: MachineInteger, s: String)): () == {
+	import from MachineInteger;
+	if u case i then pS("K@K@:", "int") else pS("K@K@:", "str");
+	if u case s then pS("K@K@:", u.s) else pIMI("K@K@:", u.i);
+}
+c@K@(): () == {
+	import from MachineInteger;
+	U ==> Union(i: MachineInteger, s: String);
+	u: U := %s;
+	sh@K@(u);
+	u := %s;
+	sh@K@(u);
+	l: List U := [[1], ["two"], [3]];
+	for e in l repeat sh@K@(e);
+}
+''' % (init, other)
+        a = ['int', '7'] if first == 'i' else ['str', 'seven']
+        b = ['str', 'str'] if first == 'i' else ['int', '9']
+        C.append(raw(text, a + b + ['int', '1', 'str', 'two', 'int', '3']))
+    # default arguments? keyword-free: partial application through closures returning several values
+    C.append(raw('''c@K@(): () == {
+	import from MachineInteger;
+	f: MachineInteger -> (MachineInteger, MachineInteger) := (n: MachineInteger): (MachineInteger, MachineInteger) +-> (n quo 3, n rem 3);
+	for k in 7..9 repeat { (q, r) := f k; pIMI("K@K@:", q * 10 + r); }
+}
+''', ['21', '22', '30']))
+    return C
+
+
+FAMILIES.update({'F6M': f6m})
